@@ -108,6 +108,7 @@ const (
 )
 
 type Goroutine struct {
+	vc    vclock
 	id    int
 	stack []*Frame
 	state GState
@@ -183,6 +184,9 @@ type Exec struct {
 	crossQ      []crossQuery
 	sched       int
 	internalND  int
+	raceOn      bool
+	syncVC      map[interface{}]vclock
+	shadow      map[locKey]*shadowLoc
 	lastRun     *Goroutine
 	closing     bool // the current branch() decides an assertion / panic check
 	known       map[int]*Term // sub-term -> constant, implied by the path condition
@@ -190,6 +194,7 @@ type Exec struct {
 	pushedFrame bool // an intrinsic pushed a frame that must run before the caller continues
 	protoSizes  map[string]*Term
 	timerDurs   []*Term
+	pendingRace *pathEnd
 }
 
 func newExec(prog *ssa.Program, tt *TermTable, sol *Solver, models *[]Model, job *JobSpec,
@@ -204,6 +209,7 @@ func newExec(prog *ssa.Program, tt *TermTable, sol *Solver, models *[]Model, job
 	for _, p := range initAllow {
 		ex.initPkgs[p] = true
 	}
+	ex.raceOn = job.Params["RACE"] == 1
 	return ex
 }
 
@@ -231,6 +237,9 @@ func (e *Exec) runPath(entry *ssa.Function) (kind, msg, key string, stack []stri
 		}
 	}()
 	e.run(entry)
+	if e.pendingRace != nil {
+		kind, msg, key = e.pendingRace.kind, e.pendingRace.msg, e.pendingRace.key
+	}
 	return
 }
 
@@ -647,7 +656,12 @@ func (e *Exec) global(g *ssa.Global) *Object {
 	if p := g.Pkg; p != nil && e.initPkgs[p.Pkg.Path()] && !e.initDone[p] && e.cur != nil {
 		e.initDone[p] = true
 		if f := p.Func("init"); f != nil && f.Blocks != nil {
+			// package initialisation happens before everything else: its accesses are not
+			// part of the race analysis
+			on := e.raceOn
+			e.raceOn = false
 			e.callSync(e.cur, FuncV{fn: f}, nil, func(Value) {})
+			e.raceOn = on
 		}
 	}
 	return o
@@ -701,6 +715,7 @@ func (e *Exec) toI64(v Value, typ types.Type) *Term {
 func (e *Exec) newGoroutine(fn FuncV, args []Value) *Goroutine {
 	g := &Goroutine{id: len(e.gs)}
 	e.gs = append(e.gs, g)
+	e.raceInit(g, e.cur)
 	e.pushCall(g, fn, args, nil, nil)
 	if len(g.stack) == 0 {
 		g.state = GDone // a native function: it has already run
@@ -1272,6 +1287,9 @@ func (e *Exec) ctxMethod(c *ctxObj, name string, in *ssa.Call) Value {
 	case "Err":
 		for p := c; p != nil; p = p.parent {
 			if p.cancelled {
+				if p.done != nil {
+					e.acq(e.cur, p.done)
+				}
 				if p.deadline {
 					return e.sentinelErr("context.DeadlineExceeded")
 				}
